@@ -110,3 +110,20 @@ func SpecDec(v int64) string { panic("abstract spec function") }
 //@   ensures fresh_cursor: result != nil && fresh(result) && result.p == 6
 //@   ensures a_known_count_comes_from_the_header: lpHdr != 65535 ==> result.numElements == lpHdr
 //@   ensures an_unknown_count_is_established_by_walking_the_entries: lpHdr == 65535 ==> lpCountCalls == old(lpCountCalls) + 1 && result.numElements == lpCounted
+
+// countElements: every entry before the 0xFF end marker is stepped over once and counted; the
+// cursor is put back. (Listpack.Next is contracted above; here only its frame and the count matter.)
+// The count is a uint32 like the listpack's byte length, hence the modulus (an entry takes >= 2 bytes).
+//   lpWalked  entries stepped over by Next inside a walk
+//@ func Listpack.countElements
+//@   arith int
+//@   properties C03
+//@   replay rdb_listpackCount@pkg/rdb
+//@   ghost var lpWalked mathint = 0
+//@   requires nonnil: lp != nil
+//@   modifies lp.p, lpWalked
+//@   set lpWalked = lpWalked + 1 after call Next
+//@   ensures one_count_per_entry_walked: result == (lpWalked - old(lpWalked)) % 4294967296
+//@   ensures stops_at_the_end_marker_only: lp.p == old(lp.p)
+//@   loop 1:
+//@     invariant counted: count == (lpWalked - old(lpWalked)) % 4294967296 && lpWalked >= old(lpWalked) && lp != nil
